@@ -135,6 +135,11 @@ def spaces(tier, seed):
         for itv in ([0, 2], [-2, -1], [-1, 2], [-2, 0]))
     sp.append({"name": f"level 1: step object reused (first call on the mirrored problem), asymmetric intervals, width 3 "
                        f"over {a1}", "level": 1, "cases": primed, "chunk": 16 if tier == "quick" else 4})
+    rechecked = itertools.chain.from_iterable(
+        stack_cases(a1, 3, dict(config_of([]), interval=itv, rechecked=True), seed) for itv in ([-1, 1], [-2, 0]))
+    sp.append({"name": f"level 1: second cross-checking of datasets that already carry the consistency band (disparities "
+                       f"changed in between), width 3 over {a1}", "level": 1, "cases": rechecked,
+               "chunk": 16 if tier == "quick" else 4})
     sp.append({"name": "level 1: machine-level binding, pipelines ending with validation (left and right maps)",
                "level": 1, "cases": machine_cases(tier, seed), "chunk": 1})
     if tier == "thorough":
@@ -334,7 +339,7 @@ def _sigs(cfgkey, m):
 
 def _cfgkey(case):
     return (f"w{case['w']}|fl{case.get('fl')}|t{case['thr']}|i{case['interval']}|o{case['off']}|c{case['conf']}"
-            + ("|primed" if case.get("primed") else ""))
+            + ("|primed" if case.get("primed") else "") + ("|rechecked" if case.get("rechecked") else ""))
 
 
 def _run_map(case, dl, dr, fl, fr):
@@ -342,7 +347,9 @@ def _run_map(case, dl, dr, fl, fr):
     thr = case["thr"]
     given = thr != "default"
     thr_val = 1.0 if not given else thr
-    if case.get("primed"):
+    if case.get("rechecked"):
+        res = _cross_check_rechecked(dl, dr, fl, fr, thr_val, case["interval"], case["off"])
+    elif case.get("primed"):
         res = _cross_check_primed(dl, dr, fl, fr, thr_val, case["interval"], case["off"])
     else:
         res = VS.cross_check(dl, dr, fl, fr, thr=thr_val, interval=case["interval"], offset=case["off"],
@@ -352,7 +359,17 @@ def _run_map(case, dl, dr, fl, fr):
         viol.append({"clause": "totality", "key": f"C07/totality/disparity_checking/{type(res['error']).__name__}",
                      "detail": f"disparity_checking raised {res['error']!r} on dL={np.asarray(dl)[:3].tolist()}..."})
         return viol, None
-    conf = _whole_map_clauses(res, case["conf"], "disparity_checking", viol)
+    if case.get("rechecked"):
+        out = res["out"]
+        inds = list(out.coords["indicator"].data) if "confidence_measure" in out else []
+        if VS.BAND not in inds:
+            viol.append({"clause": "confidence-band", "key": "C07/confidence-band/disparity_checking/band missing after "
+                         "a second check", "detail": f"indicators after the second cross-checking: {inds}"})
+            return viol, None
+        # the layer of that name written last is the one this check produced
+        conf = out["confidence_measure"].data[:, :, max(i for i, x in enumerate(inds) if x == VS.BAND)]
+    else:
+        conf = _whole_map_clauses(res, case["conf"], "disparity_checking", viol)
     if conf is None:
         return viol, None
     v, m, _ = judge(res["out"]["validity_mask"].data, conf, dl, dr, fl, float(thr_val), case["interval"][0],
@@ -378,6 +395,34 @@ def _cross_check_primed(dl, dr, fl, fr, thr, interval, offset):
     try:
         step = validation.AbstractValidation(validation_method="cross_checking_accurate", cross_checking_threshold=thr)
         step.disparity_checking(right.copy(deep=True), left.copy(deep=True))  # first use: the mirrored problem
+        res["out"] = step.disparity_checking(left, right)
+    except Exception as e:  # pylint: disable=broad-except
+        res["error"] = e
+    return res
+
+
+def _cross_check_rechecked(dl, dr, fl, fr, thr, interval, offset):
+    """
+    the datasets were already cross-checked once (with other left disparities), so the consistency band exists when
+    the map under test is checked: a band of that name must hold the distances of THIS check afterwards
+    """
+    from pandora import validation  # pylint: disable=import-outside-toplevel
+
+    dl = np.asarray(dl, dtype=np.float32)
+    dr = np.asarray(dr, dtype=np.float32)
+    window = 1 + 2 * offset
+    first = np.roll(dl, 1, axis=1)
+    left = D.disparity(first, validity=fl, interval=[interval[0], interval[1]], window_size=window)
+    right = D.disparity(dr, validity=fr, interval=[-interval[1], -interval[0]], window_size=window)
+    res = {"left": left, "right": right, "left_before": None, "right_before": right.copy(deep=True),
+           "out": None, "error": None}
+    try:
+        step = validation.AbstractValidation(validation_method="cross_checking_accurate", cross_checking_threshold=thr)
+        step.disparity_checking(left, right)
+        # a later step changed the disparities; the map is examined again from its incoming flags
+        left["disparity_map"].data[...] = dl
+        left["validity_mask"].data[...] = np.asarray(fl, dtype=left["validity_mask"].dtype)
+        res["left_before"] = left.copy(deep=True)
         res["out"] = step.disparity_checking(left, right)
     except Exception as e:  # pylint: disable=broad-except
         res["error"] = e
